@@ -8,6 +8,7 @@ import (
 	"reflect"
 	"sort"
 	"strings"
+	"unicode/utf8"
 
 	"gitee.com/xuesongtao/protoc-go-valid/valid"
 	"vmon/internal/clause"
@@ -26,7 +27,9 @@ import (
 var c18Types = []reflect.Type{gen.TString, gen.TString, gen.TString, gen.TBool, gen.TInt, gen.TInt8, gen.TInt16, gen.TInt32, gen.TInt64, gen.TUint, gen.TUint8, gen.TUint16, gen.TUint32, gen.TUint64, gen.TFloat32, gen.TFloat64, gen.TGInt, gen.TGStr, gen.TGUint, gen.TGBool}
 
 // strings that matter for URL transport
-var c18UrlStrings = []string{"hello world", "a b c", " lead", "trail ", "a  b", "x+y z", "a&b", "a=b", "p&q=r", "a+b", "100%", "a b", "?x", "#frag", "测试&调", "a%26b", "%41", "a;b", "1+1=2", "x&", "=", "&", "a/b?c", "é=ü", "a;b;c", ";x", "x;", "测;试", "a;;b"}
+var c18UrlStrings = []string{"hello world", "a b c", " lead", "trail ", "a  b", "x+y z", "a&b", "a=b", "p&q=r", "a+b", "100%", "a b", "?x", "#frag", "测试&调", "a%26b", "%41", "a;b", "1+1=2", "x&", "=", "&", "a/b?c", "é=ü", "a;b;c", ";x", "x;", "测;试", "a;;b",
+	// bytes that are not valid UTF-8 (a Latin-1 / GBK form value): the value is what was sent, byte for byte
+	"caf\xe9", "\xd6\xd0", "a\xffb", "\xe9"}
 
 func c18Markers(o drive.Out) (set []string, other []string) {
 	if o.Nil || o.Panic != "" {
@@ -108,8 +111,8 @@ func runC18(c *core.Ctx) {
 // rule syntax (no separators, brackets, quotes, pipes, commas) and has no surrounding blanks that a
 // rule argument could not carry.
 func c18RuleSafe(s string) bool {
-	if s == "" || strings.ContainsAny(s, "/()'|,=~\\\"") {
-		return false
+	if s == "" || strings.ContainsAny(s, "/()'|,=~\\\"") || !utf8.ValidString(s) {
+		return false // (a struct tag cannot carry invalid UTF-8 unchanged)
 	}
 	return true
 }
